@@ -5,9 +5,13 @@ import (
 	_ "verif/props/c02"
 	_ "verif/props/c03"
 	_ "verif/props/c04"
+	_ "verif/props/c05"
 	_ "verif/props/c08"
+	_ "verif/props/c10"
 	_ "verif/props/c12"
 	_ "verif/props/c13"
 	_ "verif/props/c14"
 	_ "verif/props/c15"
+	_ "verif/props/c16"
+	_ "verif/props/c18"
 )
